@@ -190,6 +190,10 @@ def rich_cases(draw, large=False):
                          c13_docs.rich_nexus_docs(max_taxa=5, max_trees=3, max_blocks=3, max_chars=6, recase=recase)))
     if doc["features"]["weight"] and want_weights:
         opts["store_tree_weights"] = True
+    if doc["features"].get("linked") and want_weights and not doc["features"].get("recased"):
+        # titled TAXA block + LINK TAXA: every route has to create its namespace(s) WITH the block's title, also the
+        # case-sensitive ones
+        opts["case_sensitive_taxon_labels"] = True
     return {"doc": doc, "opts": fit_options(doc, opts), "plan": plan}
 
 
@@ -897,7 +901,7 @@ def _check(run):
     else:
         feats = c13_docs.features_of(run.case["doc"])
         feats["blocks"] = len(sizes)
-    for f in ("translate", "comment", "weight", "sets"):
+    for f in ("translate", "comment", "weight", "sets", "linked"):
         if feats.get(f):
             ctx.cls("feature:%s" % f)
     for o in sorted(opts):
